@@ -144,23 +144,33 @@ def comparator(ctx, rid_override):
                    "the shape comparator never compares `%s.%s` of the two types: two definitions that differ only there are judged equal and share one generated item" % (adt, f))
     # zipped collections must be guarded by an EQUALITY comparison of their lengths (zip silently truncates)
     # (`a.iter().zip(b)` as a method call, or the free function `std::iter::zip(a, b)`: (node, left operand, right operand))
-    zips = [(n, n["recv"], n["args"][0]) for n in walk(fn["body"]) if n.get("k") == "MethodCall" and cshort(n.get("callee", "")) == "Iterator::zip" and n["args"]]
-    zips += [(n, n["args"][0], n["args"][1]) for n in walk(fn["body"]) if n.get("k") == "Call" and cshort(n.get("callee", "")) == "iter::zip" and len(n["args"]) == 2]
-    lens = []
-    for n in walk(fn["body"]):
-        if n.get("k") == "Binary" and n["op"] in ("==", "!=", "<", ">", "<=", ">="):
-            l, r = strip(n["l"]), strip(n["r"])
-            if l.get("k") == "MethodCall" and r.get("k") == "MethodCall" and l["name"] == "len" and r["name"] == "len":
-                lens.append((show(N.term(l["recv"])), show(N.term(r["recv"])), n["op"], n))
-    ctx.count("zipped collection pairs in the comparator", len(zips), 3)
-    for z, za, zb in zips:
-        a, b = show(N.term(za)), show(N.term(zb))
-        ops = [op for x, y, op, _n in lens if {x, y} == {a, b}]
-        key = "comparator-length/" + (a.split("@")[-1].split(".")[-1] if "@" in a or "." in a else a)[:40]
-        ctx.expect(bool(ops) and all(op in ("==", "!=") for op in ops), R2, key, site(z),
-                   "the two zipped lists are compared for equal length (%s)" % ops,
-                   "the comparator zips `%s` with `%s` but compares their lengths with %s: a list that is a strict prefix of the other is judged equal "
-                   "(zip truncates), and the judgement becomes asymmetric" % (a[-60:], b[-60:], ops or "nothing"))
+    # The comparator AND every private helper that works on its behalf (q.owners) are searched: a zip moved into a helper `all_pairwise(a, b, f)`
+    # needs its length comparison there (or it has none).
+    bodies = [(fn, N)]
+    for c, hb in P.all_bodies(GEN):
+        if "body" in hb and hb["path"] != fn["path"] and not q.derived(hb) and hb.get("dk") in ("Fn", "AssocFn") \
+                and fn["path"] in q.owners(ctx, hb["path"], GEN) and q.owners(ctx, hb["path"], GEN) != [hb["path"]]:
+            bodies.append((hb, Norm(hb)))
+    n_zips = 0
+    for hf, HN in bodies:
+        zips = [(n, n["recv"], n["args"][0]) for n in walk(hf["body"]) if n.get("k") == "MethodCall" and cshort(n.get("callee", "")) == "Iterator::zip" and n["args"]]
+        zips += [(n, n["args"][0], n["args"][1]) for n in walk(hf["body"]) if n.get("k") == "Call" and cshort(n.get("callee", "")) == "iter::zip" and len(n["args"]) == 2]
+        lens = []
+        for n in walk(hf["body"]):
+            if n.get("k") == "Binary" and n["op"] in ("==", "!=", "<", ">", "<=", ">="):
+                l, r = strip(n["l"]), strip(n["r"])
+                if l.get("k") == "MethodCall" and r.get("k") == "MethodCall" and l["name"] == "len" and r["name"] == "len":
+                    lens.append((show(HN.term(l["recv"])), show(HN.term(r["recv"])), n["op"], n))
+        n_zips += len(zips)
+        for z, za, zb in zips:
+            a, b = show(HN.term(za)), show(HN.term(zb))
+            ops = [op for x, y, op, _n in lens if {x, y} == {a, b}]
+            key = "comparator-length/" + (a.split("@")[-1].split(".")[-1] if "@" in a or "." in a else a)[:40] + ("" if hf is fn else "@" + cshort(hf["path"]))
+            ctx.expect(bool(ops) and all(op in ("==", "!=") for op in ops), R2, key, site(z),
+                       "the two zipped lists are compared for equal length (%s)" % ops,
+                       "the comparator%s zips `%s` with `%s` but compares their lengths with %s: a list that is a strict prefix of the other is judged equal "
+                       "(zip truncates), and the judgement becomes asymmetric" % ("" if hf is fn else " (in its helper `%s`)" % cshort(hf["path"]), a[-60:], b[-60:], ops or "nothing"))
+    ctx.count("zipped collection pairs in the comparator", n_zips, 1)
     # off-diagonal and primitive arms
     ms = q.matches_on(fn["body"], lambda t: t.startswith("(&scale_info::TypeDef<"))
     if len(ms) == 1:
